@@ -134,6 +134,28 @@ def inject(fn, k, expect=None, lines=False):
     return oc, fired
 
 
+_FINALLY = {}
+
+
+def in_cleanup_block(entry):
+    """Is this LINE event inside the body of a `finally:` block (the restoring code itself)?  A fault injected there is a fault
+    in the cleanup, which no implementation can survive; such crash points are excluded from the LINE-level enumeration."""
+    import ast
+    fn, _, line = entry
+    if fn not in _FINALLY:
+        lines = set()
+        try:
+            tree = ast.parse(open(os.path.join(PKG, fn)).read())
+            for node in ast.walk(tree):
+                if isinstance(node, ast.Try) and node.finalbody:
+                    for st in node.finalbody:
+                        lines.update(range(st.lineno, (st.end_lineno or st.lineno) + 1))
+        except Exception:
+            pass
+        _FINALLY[fn] = lines
+    return line in _FINALLY[fn]
+
+
 def select_points(events, mode="first_last"):
     """Quick tier: first and last occurrence of every distinct code location; thorough: every event."""
     if mode == "all":
